@@ -84,14 +84,14 @@ func (its *clientImpl) IsConnected() bool {
 
 func (its *clientImpl) CreateDatatype(key string, typeOf model.TypeOfDatatype, handlers *Handlers) Datatype {
 	switch typeOf {
-	case model.TypeOfDatatype_COUNTER:
-		return its.CreateCounter(key, handlers).(Datatype)
-	case model.TypeOfDatatype_MAP:
-		return its.CreateMap(key, handlers).(Datatype)
-	case model.TypeOfDatatype_LIST:
-		return its.CreateList(key, handlers).(Datatype)
-	case model.TypeOfDatatype_DOCUMENT:
-		return its.CreateDocument(key, handlers).(Datatype)
+	case model.TypeOfDatatype_COUNTER,
+		model.TypeOfDatatype_MAP,
+		model.TypeOfDatatype_LIST,
+		model.TypeOfDatatype_DOCUMENT:
+		// a refused creation (e.g., the key is used by a datatype of another type) returns nil, as CreateCounter() etc. do.
+		if datatype := its.subscribeOrCreateDatatype(key, typeOf, model.StateOfDatatype_DUE_TO_CREATE, handlers); datatype != nil {
+			return datatype.(Datatype)
+		}
 	}
 	return nil
 }
